@@ -8,7 +8,7 @@ From Coq Require Import ZArith List Bool.
 From V Require Import Base.Int Base.IO.
 From V Require Import Spec.Zone Proofs.TzCommon.
 From V Require Spec.Gregorian.
-From V Require Import Model.TzParser Model.TzRule Model.TzLookup Model.C05 Proofs.C05.
+From V Require Import Model.TzParser Model.TzRule Model.TzLookup Model.C05 Proofs.C05 Proofs.C05Composite.
 From V Require Model.Date Model.DateTime.
 Import ListNotations.
 Open Scope Z_scope.
@@ -301,6 +301,98 @@ Theorem C05_rule_is_dst_year : forall r k t, rule_year_hyps r k ->
    else (t <? rule_end_utc r k) || (rule_start_utc r k <=? t)).
 Proof. exact rule_is_dst_year. Qed.
 Print Assumptions C05_rule_is_dst_year.
+
+(** ** COMPOSITE zones: a transition table followed by a footer rule (Proofs/C05Composite.v).
+    [cz] = the zone as the oracle sees it.  [last_window] = the last table transition (instant,
+    offset before, offset after); [footer_hi] = the end of its wall-clock window; [footer_year] = the
+    calendar year of its wall reading.  [footer_continues cz] (decidable) = the continuity condition
+    between table and rule: (1) read on every clock involved, the last table transition lies in one
+    calendar year (implied by the property's premise when, as in every real file, the last table
+    transition is one of the rule's transitions); (2) the offset in force after the last transition is
+    the rule's offset there; (3) a rule transition of that year after the last table transition has its
+    wall-clock window after the last table window, one at or before it has its window at or before the
+    end of the last table window.  [rule_reading_hyps a l] = the premises of
+    C05_rule_zone_classification for the reading l (year fits, property's premise for the years
+    k-3..k+2, the year's two windows disjoint and in order); needed only past the last table window. *)
+
+(* S(l) of the composite zone is S(l) of the table alone up to the end of the last table window and
+   S(l) of the rule alone after it *)
+Theorem C05_composite_instants : forall first tr r tl pv ol l,
+  increasing tr = true -> ordered (windows tr first) = true ->
+  last_window tr first = Some (tl, pv, ol) ->
+  footer_continues (mk_szone first tr (Some (inr r))) = true ->
+  rule_year_hyps r (utc_year (tl + ol)) ->
+  let cz := mk_szone first tr (Some (inr r)) in
+  (l <= tl + Z.max pv ol ->
+   forall t, In t (instants_of_wall cz l) <-> In t (instants_of_wall (mk_szone first tr None) l)) /\
+  (tl + Z.max pv ol < l ->
+   forall t, In t (instants_of_wall cz l) <-> In t (instants_of_wall (mk_szone first [] (Some (inr r))) l)).
+Proof. exact composite_instants. Qed.
+Print Assumptions C05_composite_instants.
+
+(* unique / twice / skipped, and order, for EVERY wall reading off the excepted seconds: the answer of
+   find_local_time_type_from_local on the composite zone is None / Single / Ambiguous(earliest, latest)
+   exactly as instants_of_wall is [] / [t] / [t1; t2] (C05_classification_table up to the last window,
+   C05_rule_zone_classification after it, joined by C05_scan_then_rule and C05_composite_instants) *)
+Theorem C05_composite_classification : forall z ps first a l,
+  let k := utc_year l in let r := conv_rule a in
+  let cz := mk_szone (ut_offset first) (offs ps) (Some (inr r)) in
+  table_zone z ps first -> extra_rule z = Some (Alternate a) -> alt_ok a -> r_std r <> r_dst r ->
+  increasing (offs ps) = true -> spacing_table (offs ps) (ut_offset first) = true ->
+  footer_continues cz = true -> rule_year_hyps r (footer_year cz) ->
+  (footer_hi cz < l -> rule_reading_hyps a l) ->
+  excepted_wall cz l = false ->
+  exists m, find_local_time_type_from_local z k l = Val (Ok m) /\
+  let S := instants_of_wall cz l in
+  match m with
+  | MNone => S = []
+  | MSingle x => forall t, In t S <-> t = l - ut_offset x
+  | MAmbiguous x y => l - ut_offset x < l - ut_offset y /\
+                      forall t, In t S <-> t = l - ut_offset x \/ t = l - ut_offset y
+  end.
+Proof. exact composite_classification. Qed.
+Print Assumptions C05_composite_classification.
+
+(* roundtrip: for EVERY instant t whose wall reading t + off(t) is not an excepted second, converting
+   that reading back yields an answer that contains off(t), i.e. the instant t *)
+Theorem C05_roundtrip_composite : forall z ps first a t o,
+  let r := conv_rule a in
+  let cz := mk_szone (ut_offset first) (offs ps) (Some (inr r)) in
+  let l := t + o in
+  table_zone z ps first -> extra_rule z = Some (Alternate a) -> alt_ok a -> r_std r <> r_dst r ->
+  increasing (offs ps) = true -> spacing_table (offs ps) (ut_offset first) = true ->
+  footer_continues cz = true -> rule_year_hyps r (footer_year cz) ->
+  (footer_hi cz < l -> rule_reading_hyps a l) ->
+  zone_off cz t = Some o -> excepted_wall cz l = false ->
+  exists m, find_local_time_type_from_local z (utc_year l) l = Val (Ok m) /\ contains m o.
+Proof. exact roundtrip_composite. Qed.
+Print Assumptions C05_roundtrip_composite.
+
+(* the hypotheses are inhabited: Europe/Berlin's two transitions of 2023 followed by the footer
+   CET-1CEST,M3.5.0,M10.5.0/3 *)
+Theorem C05_composite_example :
+  table_zone exc_zone ex_ps ex_cet /\ extra_rule exc_zone = Some (Alternate exc_rule) /\ alt_ok exc_rule /\
+  r_std (conv_rule exc_rule) <> r_dst (conv_rule exc_rule) /\
+  increasing (offs ex_ps) = true /\ spacing_table (offs ex_ps) (ut_offset ex_cet) = true /\
+  footer_continues exc_cz = true /\ footer_year exc_cz = 2023 /\ footer_hi exc_cz = 1698548400 /\
+  rule_year_hyps (conv_rule exc_rule) (footer_year exc_cz).
+Proof. exact exc_hyps. Qed.
+Print Assumptions C05_composite_example.
+Theorem C05_composite_example_readings :
+  rule_reading_hyps exc_rule 1729996200 /\ rule_reading_hyps exc_rule 1711852200 /\
+  rule_reading_hyps exc_rule 1719792000 /\
+  excepted_wall exc_cz 1729996200 = false /\ excepted_wall exc_cz 1711852200 = false /\
+  excepted_wall exc_cz 1719792000 = false /\ excepted_wall exc_cz 1698546600 = false /\
+  find_local_time_type_from_local exc_zone 2024 1729996200 = Val (Ok (MAmbiguous ex_cest ex_cet)) /\
+  instants_of_wall exc_cz 1729996200 = [1729989000; 1729992600] /\
+  find_local_time_type_from_local exc_zone 2024 1711852200 = Val (Ok MNone) /\
+  instants_of_wall exc_cz 1711852200 = [] /\
+  find_local_time_type_from_local exc_zone 2024 1719792000 = Val (Ok (MSingle ex_cest)) /\
+  instants_of_wall exc_cz 1719792000 = [1719784800] /\
+  find_local_time_type_from_local exc_zone 2023 1698546600 = Val (Ok (MAmbiguous ex_cest ex_cet)) /\
+  instants_of_wall exc_cz 1698546600 = [1698539400; 1698543000].
+Proof. exact exc_readings. Qed.
+Print Assumptions C05_composite_example_readings.
 
 (** ** Known finding C05-closely-spaced-transitions: the spacing hypothesis of
     C05_classification_table / C05_roundtrip_table cannot be dropped *)
